@@ -186,7 +186,7 @@ def run(ctx):
     for i in range(nt):
         isdc = rng.chance(1, 3)
         lossless = rng.chance(1, 4)
-        mode = rng.choice(["valid", "valid", "valid", "overfull", "dup", "dcrange", "kraft", "allones"])
+        mode = rng.choice(["valid", "valid", "valid", "overfull", "dup", "dcrange", "kraft", "allones", "overlong"])
         nsym = rng.range(1, 17 if isdc else 256)
         bits, n = random_valid_bits(rng, nsym)
         pool = list(range(17 if (isdc and lossless) else 16)) if isdc else list(range(256))
@@ -211,6 +211,14 @@ def run(ctx):
             lmax = max(l for l in range(1, 17) if bits[l])
             rem = (1 << 16) - sum(bits[l] << (16 - l) for l in range(1, 17))
             add = rem >> (16 - lmax)
+            if sum(bits[1:]) + add <= 256 and bits[lmax] + add <= 255:
+                bits[lmax] += add
+                vals = (vals + [v for v in rng.shuffle(pool) if v not in vals])[:sum(bits[1:])]
+        elif mode == "overlong":
+            # over-subscribed ONLY at the longest length: complete the code there, then 1..3 codes more
+            lmax = max(l for l in range(1, 17) if bits[l])
+            rem = (1 << 16) - sum(bits[l] << (16 - l) for l in range(1, 17))
+            add = (rem >> (16 - lmax)) + rng.range(1, 3)
             if sum(bits[1:]) + add <= 256 and bits[lmax] + add <= 255:
                 bits[lmax] += add
                 vals = (vals + [v for v in rng.shuffle(pool) if v not in vals])[:sum(bits[1:])]
@@ -255,6 +263,8 @@ def run_cases(ctx, cases, exes, drv, flavours):
     for i, (line, kind, meta) in enumerate(cases):
         impl = ref[i]
         nontriv = None
+        if impl == "<no output>":      # the harness died earlier in the stream (already reported as a crash)
+            continue
         # ---- property-level oracle on the implementation ----
         if kind.startswith("gen-") or kind == "corpus-gen":
             nzc = sum(1 for x in meta if x)
